@@ -503,6 +503,12 @@ def c05_sig(e, reason):
 def c05(ctx):
     summ = V.gen_traces(ctx, shards=12)
     V.validate(ctx, "Trace_C05", summ, c05_sig, par=12, timeout=3000)
+    # inputs chosen by Go's coverage-guided fuzzer over the same entry points: reported inputs and the whole
+    # corpus go through the monitored worker and TLC's judgement like the generated ones
+    rows, nrows = V.go_fuzz(ctx, "FuzzC05", 240 if ctx.tier == "thorough" else 20, parallel=12 if ctx.tier == "thorough" else 8)
+    if nrows:
+        summ2 = V.gen_traces(ctx, shards=12, name="trace-fuzz", extra=["-in", rows])
+        V.validate(ctx, "Trace_C05", summ2, c05_sig, par=12, timeout=3000)
     ctx.states = max(ctx.states, 0)
     return V.finish(ctx, "exploration",
                     rule="monitored execution in a child process (recover, 4 s deadline, 512 MB heap limit, allocation accounting) of 21 entry-point groups covering every decoding API and, inside each "
@@ -511,7 +517,8 @@ def c05(ctx):
                          "vectors of every format and their near misses (truncation at every (quick: strided) length, every leading byte set to 0/1/v-1/v+1/0x7F/0x80/0xFF, bit flips, extensions, the "
                          "vectors of the other formats, empty, random and 'structural' short strings); descriptors of every tag with bodies 0..6; packet streams (PAT+PMT+foreign) cut and corrupted the "
                          "same way. Every recorded execution is judged by TLC against Totality (outcome in {value,error}, read-only inputs untouched, allocation <= 2 MiB + 4096 x input length). "
-                         "class = (entry point, input source, length bucket, outcome)",
+                         "In addition Go's coverage-guided fuzzer (FuzzC05, 20 s quick / 240 s thorough, fresh corpus each run) chooses inputs for the same entry points; every input it reports and its whole "
+                         "corpus are executed again by the monitored worker and judged the same way. class = (entry point, input source, length bucket, outcome)",
                     trace_module="Trace_C05", sigfn=c05_sig,
                     assumptions=["level is exploration: a TLA+ model cannot observe Go panics/loops; the specification supplies the contract and the structure of the input space",
                                  "hang = no result within 4 s in the worker; oom = live heap above 512 MB", "parsers are read-only with respect to the caller's buffer, including the printing and re-encoding of the returned object"])
